@@ -377,7 +377,8 @@ def gen_cases(tier, seed):
                               "logout_delay": 0.3, "bdelay": 0, "any_refusal": True, "server_kwargs": skw})
     # re-USER and further commands written in one piece, user manager and/or back end that really suspend
     tails = [["PWD", "MKD /pwned", "MLST /whoami", "PASV"], ["CWD /d", "PWD"], ["EPSV", "RETR /whoami"], ["DELE /whoami", "RNFR /whoami"],
-             ["STOR /up", "LIST /"], ["PASS wrong", "MLST /whoami", "MKD /x"], ["MLSD /d"], ["PWD"] * 6]
+             ["STOR /up", "LIST /"], ["PASS wrong", "MLST /whoami", "MKD /x"], ["MLSD /d"], ["PWD"] * 6,
+             ["REST 5", "APPE /whoami"], ["REST 3", "STOR /whoami", "REST 2", "RETR /whoami"]]
     for pre in (["USER bob"], ["USER anonymous"], ["USER carol", "PASS pw2"], ["USER bob", "CWD /d"]):
         for acct in ("alice", "carol"):
             for tail in tails:
